@@ -87,9 +87,9 @@ def wide_cases(d):
     def val(depth):
         r = d.randint(0, 99)
         if depth <= 0 or r < 40:
-            return ["f", d.choice(fs)["name"]]
+            return ["f", d.choice(fs[:n])["name"]]
         if r < 50:
-            f = d.choice(fs)
+            f = d.choice(fs[:n])
             hi = d.randint(0, f["w"] - 1)
             lo = d.randint(max(0, hi - 12), hi)
             return ["ps", f["name"], hi, lo]
@@ -124,6 +124,31 @@ def wide_cases(d):
         return ["expr", ["in", E, [["rng", mk(lo), mk(hi)]]]]
 
     stmts = [anchored() for _ in range(d.randint(1, 3))]
+    en = {}
+    if d.chance(45):
+        # general statements (if / else-if / else, implies, unique, in-lists with field-valued items and bounds, not / and /
+        # or, literal operands) over the wide fields, optionally with an enum field: kept when they hold at v*
+        if d.chance(30):
+            spec = d.choice(gen.ENUM_SPECS)
+            ename = "E%d" % gen.ENUM_SPECS.index(spec)
+            en[ename] = spec
+            dom = [m[1] for m in spec["members"]]
+            ef = {"name": "f%d" % len(fs), "kind": "enum", "w": 32, "signed": True, "rand": d.chance(70), "enum": ename, "dom": dom}
+            ef["init"] = d.choice(dom)
+            fs.append(ef)
+            vstar[ef["name"]] = d.choice(dom) if ef["rand"] else ef["init"]
+            types = gen.types_of(fs)
+            c = sem.Ctx(types, vstar)
+        near = [v + k for v in vstar.values() for k in (-1, 0, 1) if -(1 << 31) <= v + k < (1 << 31)]
+        g = gen.G(d, fs, en, lits=gen.LITS + near)
+        want = d.randint(1, 3)
+        for _ in range(12):
+            s_ = g.stmt(2)
+            if gen.stmt_refs_field(s_) and sem.holds(s_, c):
+                stmts.insert(d.randint(0, len(stmts)), s_)
+                want -= 1
+                if want <= 0:
+                    break
     contradiction = None
     if d.chance(25):
         # contradiction by construction: E == c and E == c+1
@@ -133,7 +158,7 @@ def wide_cases(d):
         contradiction = [["expr", ["bin", "==", E, _sized(bits, w, sg)]],
                          ["expr", ["bin", "==", E, _sized((bits + 1) & sem.mask(w), w, sg)]]]
     calls = [{"kind": d.choice(KINDS), "seed": d.seed()} for _ in range(d.randint(1, 3))]
-    prog = {"enums": {}, "classes": [{"name": "T", "fields": fs, "blocks": [{"name": "c0", "stmts": stmts}]}]}
+    prog = {"enums": en, "classes": [{"name": "T", "fields": fs, "blocks": [{"name": "c0", "stmts": stmts}]}]}
     pert = {"field": d.randint(0, 7), "bit": d.randint(0, 63)}
     return {"mode": "wide", "prog": prog, "inline": None, "calls": calls, "vstar": vstar,
             "contradiction": contradiction, "pert": pert, "sel": [], "pseed": d.seed()}
@@ -325,7 +350,10 @@ def run_case(case, acc=None, want=("C01", "C02")):
             pins = []
             for f in rf:
                 x = env[f["name"]]
-                pins.append(["expr", ["bin", "==", ["f", f["name"]], (["slit", x, f["w"]] if f["signed"] else ["ulit", x, f["w"]])]])
+                if f["kind"] == "enum":
+                    pins.extend(flat.pin_stmts(prog, [f], env))
+                else:
+                    pins.append(["expr", ["bin", "==", ["f", f["name"]], (["slit", x, f["w"]] if f["signed"] else ["ulit", x, f["w"]])]])
             exp = sem.all_hold(stmts, types, env)
             st, exc = flat.do_call(ns, obj, "randomize_with", pins, case["pseed"])
             info["probes"] = info.get("probes", 0) + 1
@@ -354,7 +382,10 @@ def run_case(case, acc=None, want=("C01", "C02")):
             f = rf[case["pert"]["field"] % len(rf)]
             bit = case["pert"]["bit"] % f["w"]
             env = dict(vstar)
-            env[f["name"]] = sem.wrap((vstar[f["name"]] & sem.mask(f["w"])) ^ (1 << bit), f["w"], f["signed"])
+            if f["kind"] == "enum":
+                env[f["name"]] = f["dom"][(f["dom"].index(vstar[f["name"]]) + 1 + bit) % len(f["dom"])]
+            else:
+                env[f["name"]] = sem.wrap((vstar[f["name"]] & sem.mask(f["w"])) ^ (1 << bit), f["w"], f["signed"])
             if pin_at(env, "v* with one bit flipped"):
                 if case.get("contradiction"):
                     st, exc = flat.do_call(ns, obj, "randomize_with", case["contradiction"], case["pseed"])
